@@ -128,13 +128,18 @@ Theorem C02_no_creation_domain_send : forall known cur from benef v payer fp fee
 Proof. exact domain_send_no_creation. Qed.
 Print Assumptions C02_no_creation_domain_send.
 
-(* WITHDRAW_REWARD: the code has no sign check; creation-free for every amount, credits >= 0 under 0 <= wrap64 v
-   (with a negative amount the SIGNER's own balance is debited and must still cover the fee, or the whole transaction is discarded) *)
+(* WITHDRAW_REWARD: FULL since /repo 45cfd0d (negative amounts refused) and ed95e98 (amounts beyond int64 refused: 2^64-2 used to be
+   narrowed to -2).  The former witnesses are rejected, ledger unchanged: *)
 Theorem C02_no_creation_withdraw_reward : forall known cur signer rpool v payer fp fee ops, 0 <= fee ->
   effect_withdraw_reward known cur signer rpool v = Some ops ->
-  no_creation (ops ++ fee_ops payer fp fee) /\ (0 <= wrap64 v -> credits_ok (ops ++ fee_ops payer fp fee)).
+  no_creation (ops ++ fee_ops payer fp fee) /\ credits_ok (ops ++ fee_ops payer fp fee).
 Proof. exact withdraw_reward_no_creation. Qed.
 Print Assumptions C02_no_creation_withdraw_reward.
+Example C02_former_witness_withdraw_reward_rejected :
+  effect_withdraw_reward true 0 1 2 (-1) = None /\ effect_withdraw_reward true 0 1 2 (2 ^ 64 - 2) = None /\
+  wrap64 (2 ^ 64 - 2) = -2 /\ effect_withdraw_reward true 0 1 2 (2 ^ 64 + 1) = None /\
+  effect_withdraw_reward true 0 1 2 3 = Some [Burn (bal 2 0) (3 * E18); Mint (bal 1 0) (3 * E18)].
+Proof. vm_compute. auto. Qed.
 
 (* PROPOSAL_FUND and PROPOSAL_WITHDRAW_FUNDS are FULL since /repo 782c385 / 19a3caa (the handlers require a positive amount).
    The former refutation witnesses (findings C02.proposal_fund_negative / C02.withdraw_funds_negative, fixed) are rejected now: *)
